@@ -4,7 +4,8 @@
 //  1. fault enumeration: (11 proxy kinds: 8 types + 3 grouped) x (termination path: explicit close with the
 //     identical registration right behind it, control connection dropped after / before the reply / during traffic /
 //     while the registration is parked after each of its four steps, replacement by re-login, heartbeat timeout,
-//     control stream ended with pooled work connections, registration failing part-way, name taken concurrently)
+//     control stream ended with pooled work connections, registration failing part-way, name taken concurrently,
+//     connection cut in the login window, stranger's refused join of a group with several members)
 //     on two real servers (explicit ports + tcp mux; server-chosen ports + no mux + heartbeat timeout).
 //     After each: three-way ledger (model / verif snapshot / OS sockets) restricted to the case, re-registration
 //     probe, traffic probes of the re-registered proxy, of the bystander and of a sibling proxy of the same session,
@@ -65,7 +66,7 @@ transport.tcpMux = %v
 func main() {
 	defer h.DisableGC(12)()
 	run = h.NewRun(prop, "fault_enumeration")
-	run.Rule = "fault cases: the product (server in {explicit ports+tcpmux, server-chosen ports+no mux+heartbeat}) x (11 proxy kinds) x (termination paths: 11 on the first server, 4 on the second, plus the refused stranger join for the three group kinds on both) is enumerated completely in every tier, then repeated with other PRNG-chosen registration variants (domains, locations, sub domain, route user, encryption, compression, limiter, pool size, bystander in the same group) and hook-point delays; distinct = (server, kind, path, variant, hook trace signatures); leak cycles and wrapper-contract configurations count once each"
+	run.Rule = "fault cases: the product (server in {explicit ports+tcpmux, server-chosen ports+no mux+heartbeat}) x (11 proxy kinds) x (termination paths: 11 on the first server, 4 on the second, plus the refused stranger join for the three group kinds and the cut in the login window for all kinds on both) is enumerated completely in every tier, then repeated with other PRNG-chosen registration variants (domains, locations, sub domain, route user, encryption, compression, limiter, pool size, bystander in the same group) and hook-point delays; distinct = (server, kind, path, variant, hook trace signatures); leak cycles and wrapper-contract configurations count once each"
 	run.Assumptions = []string{
 		"explicit close is acknowledged by a Ping/Pong on the same session (frps handles a session's messages in order); the re-registration right after the close request is sent with no barrier in between",
 		"a session end is acknowledged when its run id has left the server's session table (bounded 15 s); 'shortly after' is read as: after that point",
